@@ -1,6 +1,7 @@
 (* Property C04 - programs accepted by analysis are safe to evaluate. *)
-From Coq Require Import List ZArith Bool.
-From MV Require Import Datalog.Syntax Datalog.Interp Datalog.Solve Analysis.RuleCheck Analysis.Declarative.
+From Coq Require Import List ZArith Bool Permutation.
+From MV Require Import Datalog.Syntax Datalog.Interp Datalog.Solve Analysis.RuleCheck Analysis.Declarative
+  Analysis.RuleCheckProofs.
 Import ListNotations.
 Open Scope Z_scope.
 
@@ -44,3 +45,78 @@ Example rewrite_F3_fixed :
   /\ accepted f3b = false
   /\ (accepted f3c = true /\ eval_fixed f3c f3c_edb = Some [(0, [num 2; num 1])]).
 Proof. vm_compute. repeat split; reflexivity. Qed.
+
+(* N19 (and its sibling N62) on the pre-fix model: the clause is accepted, evaluation
+   derives nothing, the clause as written derives p0(2). *)
+Definition n19 := mkClause (mkAtom 0 [v 1]) [PIneq (v 1) (v 0); PAtom (mkAtom 2 [v 0; v 1])] [].
+Definition n19_edb : list fact := [(2, [num 1; num 2]); (2, [num 3; num 3])].
+Definition n62 := mkClause (mkAtom 0 [v 0]) [PEq (v 0) (v 1); PNeg (mkAtom 3 [v 0]); PAtom (mkAtom 1 [v 1])] [].
+Theorem check_N19_refuted :
+  accepted_prefix n19 = true /\ eval_prefix n19 n19_edb = Some []
+  /\ decl_eval n19_edb n19_edb (domain 0 n19 n19_edb) n19 = [(0, [num 2])]
+  /\ accepted n19 = false
+  /\ accepted_prefix n62 = true /\ accepted n62 = false.
+Proof. vm_compute. repeat split; reflexivity. Qed.
+Print Assumptions check_N19_refuted.
+
+(* ---- the rewritten body is a permutation of the body as written: RewriteClause neither
+   drops nor duplicates nor invents a literal; head and transform are untouched. *)
+Theorem rewrite_perm : forall c : clause,
+  Permutation (cbody (rewrite c)) (cbody c) /\ chead (rewrite c) = chead c /\ clet (rewrite c) = clet c.
+Proof. intros c. split; [apply rewrite_perm_body|split; [apply rewrite_head|apply rewrite_let]]. Qed.
+Print Assumptions rewrite_perm.
+
+(* ---- accepted_faithful. Full statement (not finished):
+     forall c Sneg I, check (rewrite c) = true ->
+       exists sols, solve Sneg (fun _ => I) 0 (cbody (replace_wildcards (rewrite c))) [[]] = Some sols
+                    (or the only error is a function/comparison applied to ground arguments of the wrong type) /\
+       (forall s, In s sols -> every head variable has a value in s) /\
+       (forall sigma, decl_sol Sneg I c sigma <-> exists s, In s sols /\ s restricted to named_vars c = sigma).
+   Proved part: for every accepted clause cr (the clause handed to CheckRule, i.e. the rewritten
+   one) that is alias-free (C01's engine model has no variable-variable aliasing), on EVERY store
+   and delta selection, every solution the left-to-right join computes gives a value to every
+   head variable that the let-transform does not define. The invariant behind it
+   (RuleCheckProofs.check_body_inv) is stronger: after each premise every variable CheckRule counts
+   as bound has a value in every partial solution - so a comparison, an inequality or a negated
+   atom of an accepted clause is never evaluated with a named variable that has no value.
+   The equality with the declarative set is checked on samples by Run/C04.v (judge codes 5/6). *)
+Theorem accepted_faithful_partial :
+  forall (cr : clause) (Sneg : list fact) (sel : nat -> list fact) (sols : list subst),
+  check cr = true -> alias_free cr = true ->
+  solve Sneg sel 0 (cbody (replace_wildcards cr)) [[]] = Some sols ->
+  forall s, In s sols ->
+  forall x, In x (atom_vars (chead cr)) -> ~ In x (let_defs cr) -> lookup x s <> None.
+Proof. exact accepted_binds_lemma. Qed.
+Print Assumptions accepted_faithful_partial.
+
+Example accepted_faithful_hyps :
+  check (rewrite f3c) = true /\ alias_free (rewrite f3c) = true /\
+  solve f3c_edb (fun _ => f3c_edb) 0 (cbody (replace_wildcards (rewrite f3c))) [[]]
+    = Some [[(0, num 2); (1, num 1)]].
+Proof. vm_compute. repeat split; reflexivity. Qed.
+
+(* ---- unsafe_rejected. Full statement: as below with the conditions phrased on the clause as
+   written (before rewrite and wildcard replacement). Proved part: phrased on the clause cr that
+   CheckRule is given and its wildcard-replaced body (rewrite only permutes the body, theorem
+   rewrite_perm; replace_wildcards only renames wildcards to fresh variables). If a variable x
+   occurs in no positive atom and in no equality of the body (nothing can give it a value), and
+   x is a head variable that the let-transform does not define, or an operand of a comparison or of
+   an inequality, or a variable of a non-wildcard argument of a negated atom, then cr is rejected. *)
+Theorem unsafe_rejected_partial :
+  forall (cr : clause) (x : Z),
+  ~ In x (flat_map binder_vars (cbody (replace_wildcards cr))) ->
+  (In x (atom_vars (chead cr)) /\ ~ In x (let_defs cr))
+  \/ (exists o p, In (o, p) (combine (cbody cr) (cbody (replace_wildcards cr))) /\ needs o p x) ->
+  check cr = false.
+Proof. exact unsafe_rejected_lemma. Qed.
+Print Assumptions unsafe_rejected_partial.
+
+Example unsafe_rejected_hyps :
+  (* F3b: V1 of !p3(V1) occurs in no binder *)
+  ~ In 1 (flat_map binder_vars (cbody (replace_wildcards (rewrite f3b))))
+  /\ In (PNeg (mkAtom 3 [v 1]), PNeg (mkAtom 3 [v 1]))
+        (combine (cbody (rewrite f3b)) (cbody (replace_wildcards (rewrite f3b))))
+  /\ needs (PNeg (mkAtom 3 [v 1])) (PNeg (mkAtom 3 [v 1])) 1.
+Proof.
+  vm_compute. split; [intros [H|[]]; discriminate|]. split; [right; left; reflexivity|left; reflexivity].
+Qed.
